@@ -568,6 +568,9 @@ def _c09_plan(tier, seed):
         for m in ('zero', 'noise', 'truncate'):
             for k in range(orders):
                 plan.append((n, m, k))
+        # no fault: the segment view of the intact image (string table through the section link)
+        for k in range(max(2, orders // 4)):
+            plan.append((n, 'intact', k))
     _ST.update(mode='C09', info=info, elig=elig, plan=plan, tier=tier,
                skipped={n: i['why'] for n, i in info.items() if not i['ok']})
 
@@ -622,7 +625,7 @@ def _c09_exec(spec):
     mode = spec['fault']
     r = substream(spec['seed'], 'order')
     noise = bytes(r.getrandbits(8) for _ in range(64))
-    damaged = elfedit.drop_section_headers(data, mode, noise)
+    damaged = data if mode == 'intact' else elfedit.drop_section_headers(data, mode, noise)
     if damaged is None:
         return _skip(spec, 'truncation would cut a PT_LOAD extent')
     a = _view_a(data, info)
@@ -634,7 +637,7 @@ def _c09_exec(spec):
         violations.append(dict(key='%s|%s' % (mode, check), check=check, expected=expected, observed=observed))
 
     elf = ELFFile(stream)
-    fired = elf.num_sections() == 0
+    fired = (elf.num_sections() == 0) != (mode == 'intact')
     seg = elf.get_segment(info['seg_index'])
     if type(seg).__name__ != 'DynamicSegment':
         viol('segment-kind', 'DynamicSegment', type(seg).__name__)
